@@ -82,6 +82,8 @@ func scenC04(w *vsim.World, spec *vsim.Spec) {
 	sent := map[string][]tentry{}
 	untrashStarted := map[string]int{}
 	deleteStarted := map[string]int{} // DELETE requests ever started, per hash
+	taskStart := map[string]time.Time{}    // request task id (up to the first '.') -> time of its first filesystem step
+	stalledWriter := map[string]bool{}     // hash -> a PUT that had been in flight for >= TTL renamed its copy into place
 	twSeen := map[string][]int64{} // hash -> stored mtimes the trash worker saw when it stat'ed the block
 	// operations in flight (maintained by the client tasks) and their values at the instant the
 	// last filesystem step was granted: a directory change observed now was made by that step
@@ -142,6 +144,10 @@ func scenC04(w *vsim.World, spec *vsim.Spec) {
 					}
 					if !blobTrash {
 						w.Violation("c04/trash-while-trashing-disabled", "BlobTrash is off but %s left volume %s (last step: %+v)", base[:8], vs.name, last)
+						return
+					}
+					if age < ttl && stalledWriter[base] {
+						w.ViolationSig("c04/block-younger-than-ttl-trashed", "writer-stalled-a-whole-ttl-renames-under-trash", "volume %s: %s was trashed at age %s < TTL %s: a PUT of this block that had been in flight for longer than the TTL (stalled between its existence check and its rename) replaced the old copy while Trash() held the flock on it and had already judged it old; Trash() then renamed the fresh copy (last step: %+v)", vs.name, base[:8], age, ttl, last)
 						return
 					}
 					if age < ttl {
@@ -234,6 +240,26 @@ func scenC04(w *vsim.World, spec *vsim.Spec) {
 			if j > 0 {
 				w.Fault("clock-jump")
 				w.Advance(j)
+			}
+		}
+		root := s.Task
+		if i := strings.Index(root, "."); i > 0 && strings.Contains(root, ">") {
+			if j := strings.Index(root[strings.Index(root, ">"):], "."); j > 0 {
+				// "c1>ks1.2.4" -> "c1>ks1.2": one request
+				k := strings.Index(root, ">") + j
+				if m := strings.Index(root[k+1:], "."); m > 0 {
+					root = root[:k+1+m]
+				}
+			}
+		}
+		if _, ok := taskStart[root]; !ok {
+			taskStart[root] = time.Now()
+		}
+		if s.Op == "rename" && strings.Contains(s.Path, "/tmp") && time.Since(taskStart[root]) >= ttl {
+			base := filepath.Base(s.Path2)
+			if len(base) == 32 {
+				stalledWriter[base] = true
+				w.Probe("writer-in-flight-for-a-whole-ttl")
 			}
 		}
 		if strings.HasSuffix(s.Task, "trashworker") && s.Op == "stat" {
